@@ -5,9 +5,11 @@
    and, for every group / pairing / ECDSA primitive, a LOOK-UP in the table that follows the
    token "|" on the case line (entries key=value, the keys of fam_crypto.rs "prim"). A primitive
    call whose key is not in the table aborts the case with the observation "need <key>"; the
-   check (lib/props/c32.py) asks the harness for `prim <key>` (a direct library call, not an
-   operator), adds the answer to the table and runs the case again. So the model's wrappers are
-   executed in full, on primitive values that come from the libraries themselves. *)
+   check (lib/props/c32.py) computes the value with its independent reference (lib/ec_ref.py:
+   G1/G2 arithmetic and validation, ECDSA) or, for pairing / aggregate-verify / hash-to-curve,
+   asks the harness for `prim <key>` (a direct library call, not an operator), adds the answer
+   to the table and runs the case again. So the model's wrappers are executed in full.
+   "hash" and "ecdsa" cases run the Gallina specifications (Sha256, Keccak, Ecdsa) on their own. *)
 open Conv
 
 exception Need of string
@@ -103,6 +105,13 @@ let fam_crypto (t : string array) : string =
      | "sha256" -> "= " ^ hx (Sha256.sha256 m)
      | "keccak" -> "= " ^ hx (Keccak.keccak256 m)
      | _ -> failwith "bad hash")
+  | "ecdsa" ->
+    (* the Gallina ECDSA specification on its own: "ecdsa k1|r1 <pk> <msg> <sig>" -> "= <pk ok> <sig ok> <verdict>" *)
+    let c = (match t.(1) with "k1" -> Ecdsa.secp256k1 | "r1" -> Ecdsa.secp256r1 | _ -> failwith "bad curve") in
+    let pk = bytes_of_hex t.(2) and msg = bytes_of_hex t.(3) and sg = bytes_of_hex t.(4) in
+    let b x = if x then "1" else "0" in
+    let pko = Ecdsa.pubkey_ok c pk and sgo = Ecdsa.sig_ok c sg in
+    "= " ^ b pko ^ " " ^ b sgo ^ " " ^ b (pko && sgo && Ecdsa.ecdsa_verify c pk msg sg)
   | _ -> failwith "bad crypto case"
 
 let () = Reg.register "crypto" fam_crypto
